@@ -503,6 +503,99 @@ theorem C08_dotUnstuff_dotStuff (ls : List Bytes) (tail : Bytes) (hne : ls ≠ [
     rw [linesBytes_cons, hw, List.append_assoc, dotR_line _ _ hl, hb]
     simp [consAll]
 
+/-! ## a transmission that is given up part-way is never accepted -/
+
+/-- The model of `Write … Close` used above is `Write` followed by `Close`. -/
+theorem dotW_eq_dotOut_dotClose (st : WState) (s : Bytes) :
+    dotW st s = dotOut st s ++ dotClose (dotEnd st s) := by
+  induction s generalizing st with
+  | nil => cases st <;> simp [dotW, dotOut, dotEnd, dotClose]
+  | cons c r ih =>
+    cases st <;> simp only [dotW, dotOut, dotEnd] <;>
+      (repeat' split) <;> simp_all
+
+/-- The dot writer is a streaming encoder: writing `a` then `b` is writing `a ++ b`. -/
+theorem dotOut_append (st : WState) (a b : Bytes) :
+    dotOut st (a ++ b) = dotOut st a ++ dotOut (dotEnd st a) b := by
+  induction a generalizing st with
+  | nil => simp [dotOut, dotEnd]
+  | cons c r ih =>
+    cases st <;> simp only [List.cons_append, dotOut, dotEnd] <;>
+      (repeat' split) <;> simp_all
+
+/-- The reader state after the reader has consumed everything a writer in state `st` emitted. -/
+def readerOf : WState → RState
+  | .begin => .beginLine
+  | .beginLine => .beginLine
+  | .data => .data
+  | .cr => .cr
+
+/-- Whatever is written WITHOUT closing the writer (any octets at all, from any writer state) does
+not contain an end-of-data marker: the server's reader does not complete. -/
+theorem dotR_dotOut_none (st : WState) (s : Bytes) : dotR (readerOf st) (dotOut st s) = none := by
+  induction s generalizing st with
+  | nil => cases st <;> simp [dotOut, dotR]
+  | cons c r ih =>
+    have hb := ih .beginLine
+    have hd := ih .data
+    have hc := ih .cr
+    simp only [readerOf] at hb hd hc
+    cases st <;> simp only [dotOut, readerOf] <;> (repeat' split) <;>
+      simp_all [dotR, consOut]
+
+/-- Once the reader has seen the end-of-data marker what follows is left alone. -/
+theorem dotR_append (st : RState) (p q x t : Bytes) (h : dotR st p = some (x, t)) :
+    dotR st (p ++ q) = some (x, t ++ q) := by
+  induction p generalizing st x with
+  | nil => simp [dotR] at h
+  | cons c r ih =>
+    cases st <;> simp only [List.cons_append, dotR] at h ⊢ <;> (repeat' split at h) <;>
+      simp_all [consOut] <;> grind
+
+theorem dotR_prefix_none (st : RState) (p q : Bytes) (h : dotR st (p ++ q) = none) :
+    dotR st p = none := by
+  cases hp : dotR st p with
+  | none => rfl
+  | some v =>
+    obtain ⟨x, t⟩ := v
+    rw [dotR_append st p q x t hp] at h
+    cases h
+
+/-- **C08.** No prefix of what the DATA writer emitted before it is closed is taken for a complete
+message by the next hop — whatever octets were written (no shape hypothesis), wherever the
+connection is cut.  Hence an attempt that `smtpconn.Data` abandons (it returns the error and does
+NOT close the writer) cannot put a truncated copy of the signed message into the next hop's hands. -/
+theorem C08_unterminated_data_never_accepted (s p : Bytes) (hp : p <+: dotOut .begin s) :
+    receive p = none := by
+  obtain ⟨q, hq⟩ := hp
+  have h := dotR_dotOut_none .begin s
+  rw [← hq] at h
+  simp [receive, dotR_prefix_none _ p q (by simpa [readerOf] using h)]
+
+/-- **C08.** The attempt whose body reader fails after `k` octets is not accepted (any header, any
+body, any `k`). -/
+theorem C08_failed_attempt_not_accepted (h : List Bytes) (body : Bytes) (k : Nat) :
+    receive (transmitCut h body k) = none :=
+  C08_unterminated_data_never_accepted _ _ (List.prefix_refl _)
+
+/-- The defect repaired by fix 2, kept as a counterexample: `C.Close` used to send QUIT on the
+connection of an abandoned `Data` call, and net/textproto closes a pending dot writer before it
+writes any command line — the cut transmission was followed by `dotClose`, and THAT the next hop
+takes for a complete message: a truncated copy of the signed message (here the body `ab⏎cd⏎`
+cut after 3 octets arrives as `ab⏎`). -/
+theorem C08_close_after_cut_accepted_truncated_counterexample :
+    receive (transmitCut [[70, 58, 120, 13, 10]] [97, 98, 13, 10, 99, 100, 13, 10] 3
+      ++ dotClose (dotEnd .begin (writeHeader [[70, 58, 120, 13, 10]] ++ [97, 98, 13])))
+      = some (writeHeader [[70, 58, 120, 13, 10]] ++ [97, 98, 13, 10]) := by decide
+
+/-- What a cut attempt put on the wire is a prefix of the complete transmission: nothing but
+octets of the signed message, in order. -/
+theorem transmitCut_prefix (h : List Bytes) (body : Bytes) (k : Nat) :
+    transmitCut h body k <+: transmit h body := by
+  unfold transmitCut transmit
+  conv => rhs; rw [← List.take_append_drop k body, ← List.append_assoc, dotW_eq_dotOut_dotClose, dotOut_append]
+  simp [List.append_assoc]
+
 /-! ## transport -/
 
 theorem message_lines (fs : List ShapedField) (bl : List Bytes) :
@@ -543,6 +636,24 @@ theorem C08_transport_identity (viaDisk : Bool) (h : List Bytes) (bl : List Byte
     rw [List.append_nil] at this
     simp [reload, spool, this, Except.map]
   cases viaDisk <;> simp [nextHop, hr, receive_transmit_shaped fs bl hbl]
+
+/-- **C08.** However many attempts fail while the message is being written, the next hop accepts
+exactly one copy per undisturbed attempt — and by `C08_transport_identity` that copy is the
+signed message. -/
+theorem C08_accepted_once_per_clean_attempt (h : List Bytes) (bl : List Bytes)
+    (hwf : ∀ f ∈ h, RFCField f) (hbl : ∀ l ∈ bl, CleanLine l) (as : List (Option Nat)) :
+    acceptedCount h (linesBytes bl) as = (as.filter (·.isNone)).length := by
+  have hok : receive (transmit h (linesBytes bl)) = some (writeHeader h ++ linesBytes bl) := by
+    have := C08_transport_identity false h bl hwf hbl
+    simpa [nextHop] using this
+  induction as with
+  | nil => simp [acceptedCount]
+  | cons a r ih =>
+    cases a with
+    | none => simp [acceptedCount, hok, ih]; omega
+    | some k => simp [acceptedCount, C08_failed_attempt_not_accepted, ih]
+
+example : acceptedCount [[70, 58, 120, 13, 10]] [46, 13, 10, 97, 13, 10] [some 0, some 3, some 4, none] = 1 := by decide
 
 /-- **C08.** Both canonical forms, hence the digest input of any signature over any selection
 of fields, are the same at the next hop as at the signer: the verifier's reader returns the
